@@ -16,7 +16,7 @@ import vf
 KINDS = ['rr', 'random', 'prio']
 
 
-def trace_cfg(kind, max_closed, max_idle):
+def trace_cfg(kind, max_closed, max_idle, throttle=False):
     return """SPECIFICATION TraceSpec
 CONSTANTS
   Kind = "%s"
@@ -29,18 +29,19 @@ CONSTANTS
   MaxClosed = %d
   MaxIdle = %d
   Weights = {}
+  Throttle = %s
 INVARIANTS ExactlyOnce InOrder WithinWindows PieceBounded IsTree OpenHaveNodes RetentionBounded
 CONSTRAINT HW
 POSTCONDITION TraceAccepted
 CHECK_DEADLOCK FALSE
-""" % (kind, max_closed, max_idle)
+""" % (kind, max_closed, max_idle, 'TRUE' if throttle else 'FALSE')
 
 
 def validate(ctx, run, idx):
     d = ctx.specdir()
     shutil.copy(run['file'], os.path.join(d, 'trace_c20.ndjson'))
     cfg = 'Trace_C20_%d.cfg' % idx
-    open(os.path.join(d, cfg), 'w').write(trace_cfg(run['kind'], run['maxClosed'], run['maxIdle']))
+    open(os.path.join(d, cfg), 'w').write(trace_cfg(run['kind'], run['maxClosed'], run['maxIdle'], run.get('throttle', False)))
     r = ctx.tlc('Trace_WriteSched', cfg, workers=1, timeout=600, expect_ok=False,
                 label='trace validation %s closed=%d idle=%d' % (run['kind'], run['maxClosed'], run['maxIdle']))
     m = re.search(r'<<"TRACE_MATCHED", (\d+), (\d+)>>', r['out'])
